@@ -215,8 +215,20 @@ def check_cpp_tu(root: pathlib.Path, rel: str) -> Tuple[List[Diag], List[str]]:
     err = proc.stderr.decode("utf-8", "replace")
     syntax = []  # type: List[Diag]
     other = []  # type: List[str]
+    records = []  # type: List[Any]
     try:
-        records = json.loads(err) if err.strip() else []
+        # one JSON array per compilation stage; a fatal error may leave plain text after it
+        dec = json.JSONDecoder()
+        pos = 0
+        text = err.strip()
+        while pos < len(text) and text[pos] == "[":
+            arr, end = dec.raw_decode(text, pos)
+            records.extend(arr)
+            pos = end
+            while pos < len(text) and text[pos] in " \r\n\t":
+                pos += 1
+        if pos == 0 and text:
+            raise ValueError("no JSON")
     except ValueError:
         if proc.returncode != 0:
             raise ToolError(f"g++ rc={proc.returncode} with unreadable diagnostics: {err[:400]}")
